@@ -74,7 +74,9 @@ func (w *world) body(j *job) gpool.Job {
 
 type cfg struct{ Workers, Queue, Submitters int }
 
-func (c cfg) String() string { return fmt.Sprintf("workers=%d queue=%d submitters=%d", c.Workers, c.Queue, c.Submitters) }
+func (c cfg) String() string {
+	return fmt.Sprintf("workers=%d queue=%d submitters=%d", c.Workers, c.Queue, c.Submitters)
+}
 
 // waitUntil polls cond with a watchdog; returns false when the watchdog fires.
 func waitUntil(cond func() bool, d time.Duration) bool {
